@@ -81,7 +81,7 @@ def run_case(stream, seed, ctx, params):
             d = U.build_universe_deck(rng, depth=rng.randint(1, 3), macro_p=0.1, tr_p=0.0, fill_tr_p=0.4, trcl_p=0.2,
                                       reuse_p=0.5)
         elif kind < 0.8:
-            d = U.build_universe_deck(rng, depth=2, macro_p=0.0, tr_p=0.0, fill_tr_p=0.2, trcl_p=0.1, lattice_p=0.7, lat_big_p=0.15)
+            d = U.build_universe_deck(rng, depth=2, macro_p=0.0, tr_p=0.0, fill_tr_p=0.2, trcl_p=0.1, lattice_p=0.7, lat_big_p=0.35)
         else:
             d = G.build_flat_deck(rng, macro_p=0.1, ncells=rng.randint(3, 6), imp0_p=0.2)
         for c in d.cells:
@@ -153,7 +153,7 @@ def run_case(stream, seed, ctx, params):
             d = U.build_universe_deck(rng, depth=rng.randint(1, 3), macro_p=0.1, tr_p=0.0, fill_tr_p=0.4, trcl_p=0.2,
                                       reuse_p=0.5)
         else:
-            d = U.build_universe_deck(rng, depth=2, macro_p=0.0, tr_p=0.0, fill_tr_p=0.2, trcl_p=0.1, lattice_p=0.7, lat_big_p=0.15)
+            d = U.build_universe_deck(rng, depth=2, macro_p=0.0, tr_p=0.0, fill_tr_p=0.2, trcl_p=0.1, lattice_p=0.7, lat_big_p=0.35)
         if rng.random() < 0.4:
             # LIKE n BUT cells overriding material / density (incl. chains where both levels override)
             from .. import gen_like as L
